@@ -388,17 +388,20 @@ func (c *c20Ctl) kill(w *c20Worker) {
 		// registration went through.  Give an exit report that does NOT wait for it a moment
 		// to show up, so that "exit delivered before registration" becomes a choice
 		// (a gate that is late is merely found at the next await: no verdict depends on this pause)
-		c.settle(60 * time.Millisecond)
+		c.settle(500*time.Millisecond, func(x *c20Gate) bool { return x.point == "del-send" && x.arg == w.pid })
 	}
 }
 
-// settle files whatever gates arrive within d.
-func (c *c20Ctl) settle(d time.Duration) {
+// settle files whatever gates arrive within d; it returns early once one satisfies until.
+func (c *c20Ctl) settle(d time.Duration, until func(g *c20Gate) bool) {
 	deadline := time.After(d)
 	for {
 		select {
 		case g := <-c.gates:
 			c.file(g)
+			if until != nil && until(g) {
+				return
+			}
 		case <-deadline:
 			return
 		}
